@@ -12,6 +12,8 @@ type JunkCfg struct {
 	Separators bool // exact "==================" lines and "WARNING: DATA RACE" lines
 	Long       bool // lines longer than the 16 KiB buffer
 	Binary     bool
+	// MixedEOL: now and then a line ends with the other terminator (LF in a CRLF text and vice versa).
+	MixedEOL bool
 }
 
 var logWords = []string{"INFO", "WARN", "error:", "server", "started", "listening on :8080", "request", "id=42", "panic:", "runtime error: index out of range [5] with length 3",
@@ -72,6 +74,14 @@ func Junk(r *core.Rand, cfg *JunkCfg, n int, eol string) string {
 	var b strings.Builder
 	for i := 0; i < n; i++ {
 		b.WriteString(JunkLine(r, cfg))
+		if cfg.MixedEOL && r.Chance(1, 4) {
+			if eol == "\n" {
+				b.WriteString("\r\n")
+			} else {
+				b.WriteString("\n")
+			}
+			continue
+		}
 		b.WriteString(eol)
 	}
 	return b.String()
